@@ -70,12 +70,14 @@ def exec_rules(ctx, prog):
                     s.mem[("f", opt, "working_directory")] = fs(("str", "<wd>")) if wd == "set" else fs("NULL")
                     s.mon["case"] = (beh, wd, extra)
                     entries.append(s)
-    res = I.run(F, entries)
+    events = []
+    for s0 in entries:      # one run per configuration: keeps the disjunctive state sets of the 16 cases apart
+        events += I.run(F, [s0]).events
     ctx.stats("E-ABS", I.stats)
     argvc = [("v", F.gdid(p["did"])) for p in F.params if p["name"] == "argv"][0]
     seen = set()
     n = 0
-    for e in res.events:
+    for e in events:
         if e[0] != "exec":
             continue
         st = e[4]
@@ -200,8 +202,48 @@ def strv_rules(ctx, prog):
            {"size_var": szvar, "increments": len(incs)})
 
 
+def fresh_cwd_rule(ctx, prog):
+    """P4g: the prefix is the working directory at the time of this start: every path through path_prepend_cwd that returns a
+    block has, in this very call, had getcwd() fill that block (no remembered directory from an earlier start)"""
+    from ..models import m_getcwd
+    F = prog.fn("path_prepend_cwd")
+
+    def m_cwd(I, fn, n, args, st):
+        outs = m_getcwd(I, fn, n, args, st)
+        res = []
+        for s, rv in outs:
+            if rv != fs("NULL"):
+                s = s.copy()
+                s.mon["cwd_filled"] = rv
+            res.append((s, rv))
+        return res
+    I = new_interp(prog, extra_models={"getcwd": m_cwd})
+    st = State()
+    for p in F.params:
+        st.mem[("v", F.gdid(p["did"]))] = fs(("str", "<argv0>"))
+    res = I.run(F, [st])
+    ctx.stats("E-ABS", I.stats)
+    n = 0
+    seen = set()
+    for s, rv in res.exits:
+        if rv == fs("NULL"):
+            continue
+        site, node = ret_site(F, s)
+        key = (site, s.mon.get("cwd_filled") == rv)
+        if key in seen:
+            continue
+        seen.add(key)
+        n += 1
+        ctx.ob("C03.P4g", "path_prepend_cwd: " + site, "the block returned is one that getcwd() filled during this call - the parent's "
+               "working directory as it is now, not one remembered from an earlier start", s.mon.get("cwd_filled") == rv and "NULL" not in rv,
+               {"returns": show(rv), "filled_by_getcwd": show(s.mon.get("cwd_filled")) if s.mon.get("cwd_filled") else None}, nontrivial=True)
+    if n == 0:
+        raise AnalysisBroken("C03.P4g: path_prepend_cwd never returns a block")
+
+
 def prepend_rules(ctx, prog):
     """P4 buffer bounds in path_prepend_cwd, by linear forms over {path_size, cwd_size (capacity), strlen}"""
+    fresh_cwd_rule(ctx, prog)
     F = prog.fn("path_prepend_cwd")
     order = sorted((n for n in F.walk()), key=lambda n: n["id"])
     env = {}
